@@ -336,13 +336,14 @@ def corpus_cases():
 
 
 def random_cases(rng, count, nmax, thorough):
+    cap = 2e7 if thorough else 2.5e6  # n * number of directions (cost of the model's sorts)
     for i in range(count):
         deg = int(DIVISORS[i % len(DIVISORS)]) if i < 2 * len(DIVISORS) else int(rng.choice(DIVISORS))
         alpha = float(rng.choice([1e-4, 0.3, 0.01, 0.05, float(10 ** rng.uniform(-4, np.log10(0.3))), float(rng.uniform(0.01, 0.3))]))
         big = rng.uniform() < 0.08
         n = int(rng.choice([50, 51, 64, 100, 101, 200, 500, 1000, 2000])) if not big else int(nmax)
-        if 360 // deg > 90 and n > 2000 and not thorough:
-            n = 2000
+        while n * (360 // deg) > cap and n > 50:
+            n = max(50, n // 2)
         case = {"gen": "random", "alpha": alpha, "deg": deg, "supplied": True, "sseed": int(rng.integers(0, 2**31))}
         u = rng.uniform()
         if u < 0.45:
@@ -358,8 +359,10 @@ def random_cases(rng, count, nmax, thorough):
                         alpha=float(rng.choice([0.3, 0.01, 0.07, float(10 ** rng.uniform(np.log10(lo), np.log10(0.3)))])))
             if rng.uniform() < 0.25:
                 case["n_arg"] = int(rng.choice([50, 333, 1000]))
-            if int(100 / case["alpha"]) > 20000 and 360 // deg > 72:
-                case["deg"] = int(rng.choice([5, 10, 20, 45]))
+            nn = case["n_arg"] or int(100 / case["alpha"])
+            ok = [d for d in DIVISORS if nn * (360 // d) <= cap]
+            if deg not in ok:
+                case["deg"] = int(rng.choice(ok[: max(1, len(ok) // 2)])) if ok else 60
         yield case
 
 
